@@ -1,3 +1,140 @@
-From Coq Require Import ZArith List.
-From PV Require Import Base.U64 C15.C15_Model C16.C16_Model.
-Lemma placeholder : True. Proof. exact I. Qed.
+(* C16_Proofs.v — operation-level and sequence-level refinement of the aligned adaptor. *)
+From Coq Require Import ZArith List Bool Lia.
+From PV Require Import Base.U64 C15.C15_Model C16.C16_Model C16.C16_Lists C16.C16_AlignedProofs C16.C16_AlignedProofs2.
+Import ListNotations.
+Local Open Scope Z_scope.
+
+(* the same operation on ONE plain file: (return value, caller's buffers afterwards, file afterwards) *)
+Definition ref_op (f : file) (o : op) : Z * list (list byte) * file :=
+  match o with
+  | OPread b off => let d := f_pread f (zlen (sg_data b)) off in (zlen d, [overwrite (sg_data b) 0 d], f)
+  | OPwrite b off => (zlen (sg_data b), [sg_data b], f_pwrite f (sg_data b) off)
+  | OPreadv segs off => let d := f_pread f (sum_len segs) off in (zlen d, scatter (map sg_data segs) d, f)
+  | OPwritev segs off => (sum_len segs, map sg_data segs, f_pwrite f (gather segs) off)
+  | OFstat => (zlen f, [], f)
+  | OFtruncate len => (0, [], f_truncate f len)
+  end.
+
+(* the requests the statement is about: reads start at or before EOF; 64-bit guard *)
+Definition op_ok (k : Z) (f : file) (o : op) : Prop :=
+  match o with
+  | OPread b off => aligned_guard k off (zlen (sg_data b)) /\ off <= zlen f
+  | OPwrite b off => aligned_guard k off (zlen (sg_data b))
+  | OPreadv segs off => aligned_guard k off (sum_len segs) /\ off <= zlen f
+  | OPwritev segs off => aligned_guard k off (sum_len segs)
+  | OFstat => True
+  | OFtruncate len => True
+  end.
+
+Definition observe (r : opres) : Z * list (list byte) := (rs_ret r, rs_bufs r).
+Definition trace_aligned (k : Z) (am : bool) (r : opres) : Prop := Forall (ev_aligned (2 ^ k) am) (rs_trace r).
+
+Lemma run_op_refines k am f o : alloc_fails (2 ^ k) am = false -> op_ok k f o ->
+  let r := run_op (AdAligned (2 ^ k) am) [f] o in
+  observe r = fst (ref_op f o) /\ rs_files r = [snd (ref_op f o)] /\ trace_aligned k am r.
+Proof.
+  intros Hal Hok. cbv zeta. unfold observe, trace_aligned, run_op, file0. cbn [hd].
+  destruct o as [b off|b off|segs off|segs off| |len]; cbn [op_ok ref_op fst snd] in *.
+  - destruct Hok as (G & He). destruct (al_pread_refines k am f b off G Hal He) as (R1 & R2 & R3 & R4).
+    rewrite R1, R2, R3. auto.
+  - destruct (al_pwrite_refines k am f b off Hok Hal) as (R1 & R2 & R3 & R4).
+    rewrite R1, R2, R3. auto.
+  - destruct Hok as (G & He). destruct (al_preadv_refines k am f segs off G Hal He) as (R1 & R2 & R3 & R4).
+    rewrite R1, R2, R3. auto.
+  - destruct (al_pwritev_refines k am f segs off Hok Hal) as (R1 & R2 & R3 & R4).
+    rewrite R1, R2, R3. auto.
+  - cbn [rs_ret rs_bufs rs_files rs_trace]. repeat split. apply Forall_meta. reflexivity.
+  - cbn [rs_ret rs_bufs rs_files rs_trace]. repeat split. apply Forall_meta. reflexivity.
+Qed.
+
+(* every request of every operation is aligned, whatever the offset *)
+Definition op_guard (k : Z) (o : op) : Prop :=
+  match o with
+  | OPread b off | OPwrite b off => aligned_guard k off (zlen (sg_data b))
+  | OPreadv segs off | OPwritev segs off => aligned_guard k off (sum_len segs)
+  | _ => True
+  end.
+
+Lemma run_op_calls_aligned k am f o : op_guard k o ->
+  trace_aligned k am (run_op (AdAligned (2 ^ k) am) [f] o).
+Proof.
+  intros G. unfold trace_aligned, run_op, file0. cbn [hd].
+  destruct o as [b off|b off|segs off|segs off| |len]; cbn [op_guard] in G.
+  - apply al_pread_calls_aligned; exact G.
+  - apply al_pwrite_calls_aligned; exact G.
+  - apply al_preadv_calls_aligned; exact G.
+  - apply al_pwritev_calls_aligned; exact G.
+  - apply Forall_meta. reflexivity.
+  - apply Forall_meta. reflexivity.
+Qed.
+
+(* sequences *)
+Fixpoint ref_run (f : file) (ops : list op) : list (Z * list (list byte)) * file :=
+  match ops with
+  | [] => ([], f)
+  | o :: rest => let '(res, f') := ref_op f o in
+                 let '(rs, final) := ref_run f' rest in (res :: rs, final)
+  end.
+Fixpoint ops_ok (k : Z) (f : file) (ops : list op) : Prop :=
+  match ops with
+  | [] => True
+  | o :: rest => op_ok k f o /\ ops_ok k (snd (ref_op f o)) rest
+  end.
+
+Lemma ops_refine_plain_l k am : alloc_fails (2 ^ k) am = false -> forall ops f, ops_ok k f ops ->
+  map observe (fst (run_ops (AdAligned (2 ^ k) am) [f] ops)) = fst (ref_run f ops) /\
+  snd (run_ops (AdAligned (2 ^ k) am) [f] ops) = [snd (ref_run f ops)] /\
+  Forall (trace_aligned k am) (fst (run_ops (AdAligned (2 ^ k) am) [f] ops)).
+Proof.
+  intros Hal. induction ops as [|o rest IH]; intros f Hok.
+  - cbn. repeat split. constructor.
+  - destruct Hok as (H1 & H2).
+    destruct (run_op_refines k am f o Hal H1) as (R1 & R2 & R3).
+    cbn [run_ops ref_run]. rewrite R2.
+    destruct (ref_op f o) as [res f'] eqn:ER. cbn [fst snd] in *.
+    specialize (IH f' H2).
+    destruct (run_ops (AdAligned (2 ^ k) am) [f'] rest) as [rs final].
+    destruct (ref_run f' rest) as [rrs rfinal]. cbn [fst snd] in *.
+    destruct IH as (I1 & I2 & I3). cbn [map]. rewrite R1, I1, I2. repeat split.
+    constructor; assumption.
+Qed.
+
+(* hypotheses are satisfiable *)
+Lemma ops_ok_ex :
+  alloc_fails (2 ^ 3) true = false /\
+  ops_ok 3 [1; 2; 3; 4; 5; 6; 7; 8; 9; 10]
+    [OPwrite (mkSeg 4 [21; 22; 23]) 6; OPreadv [mkSeg 0 [0; 0]; mkSeg 1 [0; 0; 0]] 5; OFstat;
+     OPwrite (mkSeg 0 [31; 32]) 13; OPread (mkSeg 0 [0; 0; 0; 0]) 15].
+Proof.
+  split; [reflexivity|]. cbn -[Z.pow]. unfold aligned_guard. cbn. repeat split; try lia; try discriminate.
+Qed.
+
+(* ---- the class of the finding `memalign`: with align_memory and an alignment below
+   sizeof(void* ) the bounce buffer cannot be allocated and every un-aligned request fails *)
+Lemma small_alignment_refuted_l :
+  let f := [1; 2; 3; 4; 5] in let b := mkSeg 0 [204; 204] in
+  aligned_guard 2 1 (zlen (sg_data b)) /\ 1 < zlen f /\ alloc_fails (2 ^ 2) true = true /\
+  rs_ret (al_pread (2 ^ 2) true f b 1) = -1 /\ zlen (f_pread f (zlen (sg_data b)) 1) = 2.
+Proof. cbv zeta. unfold aligned_guard. repeat split; try (vm_compute; congruence); try reflexivity; cbn; lia. Qed.
+
+Lemma guard_ex : aligned_guard 9 1000 5000 /\ alloc_fails (2 ^ 9) true = false /\ alloc_fails (2 ^ 2) false = false.
+Proof. unfold aligned_guard. repeat split; try reflexivity; cbn; lia. Qed.
+
+(* ---- statements about the composites (fs/xfile.cpp) that are NOT proved yet; the model of the
+   composites is validated by the correspondence run only.  Logical content of a composite: *)
+Definition linear_content (files : list file) : file := concat files.
+(* FixedSizeLinearFile / VariableSizeLinearFile over sub-files that exactly fill their slots behave like
+   the plain file [concat files] of fixed size (requests starting inside it, clipped at its end) *)
+Definition linear_refines_stmt : Prop :=
+  forall (x : xfile) (files : list file) (buf : list byte) (off : Z),
+    (exists u, 0 < u /\ fst (new_fixed u files) = Some x /\ Forall (fun f => zlen f = u) files) \/
+    (fst (new_linear files) = Some x /\ Forall (fun f => 0 < zlen f) files) ->
+    zlen (linear_content files) + zlen buf < 2 ^ 63 -> 0 <= off < zlen (linear_content files) ->
+    let whole := linear_content files in
+    (let r := x_pio x true files buf off in
+     rs_ret r = zlen (f_pread whole (zlen buf) off) /\
+     rs_bufs r = [overwrite buf 0 (f_pread whole (zlen buf) off)] /\ rs_files r = files) /\
+    (let r := x_pio x false files buf off in
+     rs_ret r = Z.min (zlen buf) (zlen whole - off) /\
+     linear_content (rs_files r) = ref_pwrite_fixed whole buf off /\
+     map (@zlen byte) (rs_files r) = map (@zlen byte) files).
